@@ -297,18 +297,47 @@ theorem IdxInv.moved {w : World} (h : IdxInv w) {src dst : Nat} (hne : src ≠ d
 
 namespace World
 
+/-- **`getTable` refuses a relation list naming one relation component twice** (repair of defect
+    D26) — when the archetype has relation columns and an active table, and the count check
+    passes: `relTwice`, the world unchanged.  (Without an active table `getTable` answers "no
+    table" before any check, and `createTable` refuses the list — `createTable_rejects_twice`.) -/
+theorem getTable_rel_twice {w : World} {a : Nat} {rels : List RelID}
+    (hr : (w.arch a).hasRelations = true) (hne : (w.arch a).tables.tables.isEmpty = false)
+    (hlen : (w.arch a).numRel ≤ rels.length) (hd : ¬ (rels.map (·.comp)).Nodup) :
+    getTable a rels w = .panic .relTwice w := by
+  unfold getTable
+  simp only [hr, hne, Bool.not_true, Bool.false_eq_true, if_false,
+    if_neg (show ¬ rels.length < (w.arch a).numRel by omega),
+    (namedTwice_nil_eq_true_iff rels).mpr hd, if_true]
+
+/-- a relation list `getTable` finds a table for, in an archetype with relation columns, names
+    no relation component twice (since the repair of defect D26) -/
+theorem getTable_some_nodup {w w' : World} {a : Nat} {rels : List RelID} {t : Nat}
+    (hr : (w.arch a).hasRelations = true) (h : getTable a rels w = .ok (some t) w') :
+    (rels.map (·.comp)).Nodup := by
+  apply Classical.byContradiction
+  intro hd
+  unfold getTable at h
+  simp only [hr, Bool.not_true, Bool.false_eq_true, if_false,
+    (namedTwice_nil_eq_true_iff rels).mpr hd, if_true] at h
+  split at h
+  · cases h
+  · split at h <;> cases h
+
 /-- `getTable` for an archetype with relation columns, normal form: the scan of the tables
     listed under the first relation's target -/
 theorem getTable_rel_eq {w : World} {a : Nat} {r0 : RelID} {rest : List RelID} {i : Nat}
     (hr : (w.arch a).hasRelations = true) (hlen : (w.arch a).numRel ≤ (r0 :: rest).length)
-    (hcol : (w.arch a).colIdx r0.comp = some i) :
+    (hcol : (w.arch a).colIdx r0.comp = some i)
+    (hnd : ((r0 :: rest).map (·.comp)).Nodup) :
     getTable a (r0 :: rest) w =
       if (w.arch a).tables.tables.isEmpty then .ok none w
       else match AL.find? ((w.arch a).relationTables.getD i []) r0.target.id with
         | none => .ok none w
         | some ts => getTable.go (r0 :: rest) w ts.tables := by
   unfold getTable
-  simp only [hr, Bool.not_true, Bool.false_eq_true, if_false, hcol]
+  simp only [hr, Bool.not_true, Bool.false_eq_true, if_false, hcol,
+    (namedTwice_nil_eq_false_iff (r0 :: rest)).mpr hnd]
   by_cases he : (w.arch a).tables.tables.isEmpty = true
   · simp only [he, if_true]
   · rw [if_neg he, if_neg he, if_neg (show ¬ (r0 :: rest).length < (w.arch a).numRel by omega)]
@@ -317,12 +346,13 @@ theorem getTable_rel_eq {w : World} {a : Nat} {r0 : RelID} {rest : List RelID} {
 theorem getTable_rel_total {w : World} {a : Nat} {r0 : RelID} {rest : List RelID} {i : Nat}
     (hr : (w.arch a).hasRelations = true) (hlen : (w.arch a).numRel ≤ (r0 :: rest).length)
     (hcol : (w.arch a).colIdx r0.comp = some i)
+    (hnd : ((r0 :: rest).map (·.comp)).Nodup)
     (hlist : ∀ (ts : TableIDs),
       AL.find? ((w.arch a).relationTables.getD i []) r0.target.id = some ts → ∀ (t : Nat),
       t ∈ ts.tables → (w.tbl t).matchesExact (r0 :: rest) = .yes ∨
         (w.tbl t).matchesExact (r0 :: rest) = .no) :
     ∃ (r : Option Nat), getTable a (r0 :: rest) w = .ok r w := by
-  rw [getTable_rel_eq hr hlen hcol]
+  rw [getTable_rel_eq hr hlen hcol hnd]
   split
   · exact ⟨none, rfl⟩
   · cases hf : AL.find? ((w.arch a).relationTables.getD i []) r0.target.id with
@@ -335,7 +365,7 @@ theorem getTable_rel_some {w w' : World} {a : Nat} {r0 : RelID} {rest : List Rel
     (h : getTable a (r0 :: rest) w = .ok (some t) w') :
     ∃ (ts : TableIDs), AL.find? ((w.arch a).relationTables.getD i []) r0.target.id = some ts ∧
       t ∈ ts.tables := by
-  rw [getTable_rel_eq hr hlen hcol] at h
+  rw [getTable_rel_eq hr hlen hcol (getTable_some_nodup hr h)] at h
   split at h
   · cases h
   · cases hf : AL.find? ((w.arch a).relationTables.getD i []) r0.target.id with
